@@ -10,6 +10,10 @@ NA = {
  'C18': 'whole-program property of two asyncio programs talking HTTP through lxml and thread pools; out of reach of symbolic execution within meaningful bounds (DESIGN.md 6)',
 }
 CHECKS = {
+ 'C09': dict(
+   text='two executions of the manifest side (DashTiming + generateSegmentTimeline) at symbolic instants T1 < T2 with one option vector: shared entries agree, both timelines lie on one grid of segment boundaries, the window and publishTime only move forward; the PatchLocation arithmetic of the real ManifestContext.__init__ (publish second, ttl) with symbolic clock and depth, and the fromtimestamp round trip of the patch endpoint',
+   note='clock = base instant + symbolic window, T2 - T1 up to 2 loops (quick) / 3 loops (thorough) of the reference; create_period is reduced to its timing part; applying the XML patch to a document is outside the claim',
+   ref='DESIGN.md 5 C09'),
  'C10': dict(
    text='the real generate_init_segment runs on a stored fixture init segment with symbolic content bytes; DRM selection strings pass through the real option parser and DrmContext; the PlayReady Object is an opaque symbolic blob; an independent walker proves that every stored box is byte-identical and in order, that exactly the expected pssh boxes are appended (SystemID, key id, payload) and that mehd disappears in live mode only',
    note='fixture init segments (clear video/audio/text, encrypted video/audio); key rows, current_stream, is_https_request, CORS helper and PlayReady.generate_pro are stand-ins; quick tier: 15 DRM selections, thorough: all combinations of systems and location sets',
